@@ -530,7 +530,7 @@ def cases(prop, tier, seed):
   _preload()
   rng = random.Random(1000003 * int(seed) + 19)
   thorough = tier != 'quick'
-  n = 1000 if not thorough else 8000
+  n = 1000 if not thorough else 6000
   out = list(_counterexample_scripts(tier)) + list(_systematic())
   for i in range(n):
     if i % 3 == 2:
